@@ -271,6 +271,17 @@ def point_dipole_coupling_cm(d1_debye, d2_debye, r1_angstrom, r2_angstrom, epsr)
             / (const.h * const.c * 100.0))
 
 
+def point_dipole_magnitude_cm(d1_debye, d2_debye, r1_angstrom, r2_angstrom, epsr):
+    """|d1||d2| / (4 pi eps0 eps_r R^3) in 1/cm: the natural size of the coupling (the
+    orientational factor itself can cancel to zero)."""
+    n1 = float(numpy.linalg.norm(d1_debye)) * DEBYE_CM
+    n2 = float(numpy.linalg.norm(d2_debye)) * DEBYE_CM
+    rr = float(numpy.linalg.norm(numpy.asarray(r1_angstrom, dtype=float)
+                                 - numpy.asarray(r2_angstrom, dtype=float))) * ANGSTROM_M
+    return (n1 * n2 / (4.0 * const.pi * const.epsilon_0 * float(epsr) * rr ** 3)
+            / (const.h * const.c * 100.0))
+
+
 def point_dipole_matrix_cm(dipoles, positions, epsr):
     n = len(dipoles)
     jj = numpy.zeros((n, n))
